@@ -321,3 +321,24 @@ claim("C17", "other",
       "exact algebra of closed forms (R-ALG), selection-pipeline interpretation (R-SELECTK), finite enumeration of constant index "
       "sets (R-LOOPDOM), gather/selection alignment (R-ALIGN), call-site roles of remove_pbc (R-PBC), API resolution (R-API)",
       "DESIGN.md section 4, C17")
+
+claim("C20", "other",
+      "Decides the structural clauses only - the file format and the matrix assembly - and says so: (i) cal_neighbors (2D and "
+      "3D): three files opened once for writing before and closed once after the frame loop; per frame exactly one header "
+      "line per file, the neighbour header carrying the token `neighborlist` and the bond-weight header not; per particle a row "
+      "`id cn` + exactly cn entries (inner loop bound = the count written) + one newline in both files, entries taken from "
+      "consecutive bonds through a cursor that restarts at 0 in every frame and advances once per entry, neighbour ids from "
+      "column 1 of the 1-based bond list, weights from nlist.weights; overall file one `id cn volume[i]` line; rows in id order "
+      "without gaps enforced by a guard that raises; frame n tessellated with box n and points n; (ii) convert_configuration: "
+      "points = positions - (lower bound + L/2) computed out of place (no shift for origin-centred boxes), zero z column in 2D "
+      "only, box from the frame's lengths, per-frame lists in order; (iii) VolumeMatrix: working copy of frame nconfig's points, "
+      "N = axis 0 of the coordinates, box nconfig in every tessellation, displacement sequence +d, -2d, +d (restored), central "
+      "difference stored in column ndim*i+j of the other particles' rows, self block = - sum of the row's blocks written after "
+      "the off-diagonal loop (rows sum to zero), rows divided by the unperturbed volumes afterwards, A^T (A A^T)^-1 A, file = "
+      "returned matrix with (path, array) argument order. NOT decided - the core of the property: symmetry of the neighbour "
+      "relation, positivity and reciprocity of weights, volume sum = box volume (properties of freud's tessellation on data).",
+      "Trusted: freud's Voronoi (nlist sorted by centre id, weights aligned with bonds), the neighbour-file reader (C05), numpy "
+      "semantics; text idiom tables shared with C05.",
+      "writer line templates vs the neighbour-file protocol (R-PROTO), cursor/id/frame index rules (R-IDX), typestate of file "
+      "handles (R-HANDLE), exact algebra and ordering rules of the matrix assembly (R-ALG), save-site rule (R-SAVE)",
+      "DESIGN.md section 4, C20")
